@@ -394,3 +394,31 @@ RULE_ADDITIONS = {
 }
 for _pid, _text in RULE_ADDITIONS.items():
     META[_pid]["rule"] += " Also: " + _text
+
+# phases added in round 10 (what each adds is said in one sentence of the rule text; the counter makes a run that never reached it inconclusive)
+ROUND10 = {
+    "C01": ("expressions in which one composite term occurs two or three times (equal sub-trees beside / below each other).", {"expressions_with_a_repeated_term": 100}),
+    "C02": ("is_valid_expression on the tree of the AHB parser whose condition part is malformed ((False, message) demanded).", {"is_valid_expression_on_ahb_tree_with_malformed_condition": 200}),
+    "C04": ("the harness requirement evaluator is a class hierarchy (three keys are defined in the base class as well and answer differently there) and some of its methods sit behind a functools.wraps decorator whose wrapper is a coroutine function.", {}),
+    "C06": ("the time-condition expressions also as the resolver's own tree with replace_time_conditions=False; keys written with leading zeros at AHB level.", {"is_valid_expression_calls_with_time_conditions": 33}),
+    "C07": ("a bracketed GROUP of format constraints attached by juxtaposition in place of a single key; keys written with leading zeros in the edge pools (a key is what is written).", {"expressions_with_an_attached_group": 80}),
+    "C08": ("fulfilled constraints with a text include objects that were created unfulfilled and corrected by attribute assignment.", {}),
+    "C09": ("a part that is returned only because it is the last one must keep the conditional flag of its own condition expression.", {}),
+    "C10": ("the result object of another message (same package keys, other expressions) is built between creating the result and resolving with it, package tables filled in place after construction; dictionary based logic registered for MSCONS with an MSCONS message.", {"results_of_other_messages_built_in_between": 100, "shipped_resolver_mode:hardcoded-mscons": 20}),
+    "C12": ("every evaluation method must have been handed the evaluation context given for ITS key (evaluate_conditions with condition_keys_with_context).", {"contexts_handed_to_evaluation_methods": 200}),
+    "C13": ("a quarter of the trees have free-text data elements without discriminator (None).", {"free_texts_without_discriminator": 30}),
+    "C15": ("four validations at a time in four THREADS (own event loop and context-local data each, interpreter switch interval 10 us), every result compared with the same validation done alone; format-constraint methods of every third key publish a derived text in the context variable and leave it there.", {"validations_in_concurrent_threads": 200}),
+    "C17": ("15 % of the pools list one qualifier twice (with different expressions): offered once if one of its entries is admissible.", {"pools_with_a_repeated_qualifier": 20}),
+    "C18": ("fixed cases with one number in two spellings of which one is repeated later ([7] U [007] U [7]).", {}),
+}
+for _pid, (_text, _counters) in ROUND10.items():
+    META[_pid]["rule"] += " " + _text
+    for _tier_counters in META[_pid]["deciding"].values():
+        _tier_counters.update(_counters)
+
+# every check whose quick tier has several shards must have run one of them under `python -O` with the library's loggers switched on
+for _pid, _meta in META.items():
+    if _meta["shards"]["quick"] >= 2:
+        _meta["rule"] += " One shard in four runs under python -O, one in four with all loggers of the library at level 1 and a formatting handler, one in four with both (shard 0: plain)."
+        for _tier_counters in _meta["deciding"].values():
+            _tier_counters["shards_run:optimized+logging"] = 1
